@@ -86,8 +86,8 @@ func (s *CFStats) merge(o *CFStats) {
 }
 
 // StopIterErr is included: a callee raising it is an error like any other for the
-// constructs generated here (only the iterator protocol itself consumes it, and no
-// slot sits inside an iterator's next).
+// constructs generated here; only the iterator protocol itself consumes it, so it is
+// not injected at slots that sit inside an iterator literal's body (see CFRun).
 var cfKinds = []string{"Err", "TypeErr", "ValueErr", "ZeroDivisionErr", "NameErr", "NoPropErr", "AssertionErr", "NotImplementedErr", "SyntaxErr", "FileNotFoundErr", "StopIterErr"}
 
 func defaultsOf(p *gen.Program) map[int]harness.Ret {
@@ -416,6 +416,11 @@ func CFRun(it *harness.Interp, cfg CFConfig, t *tape.Tape, seed, run uint64, st 
 			}
 		}
 		for _, kind := range kinds {
+			if kind == "StopIterErr" && strings.Contains(exp0.Paths[k], "iter/body") {
+				// inside an iterator's body StopIterErr is the protocol's end-of-iteration
+				// signal, consumed by chains by design: not an error to deliver
+				continue
+			}
 			msg := fmt.Sprintf("inj%d", k)
 			plan := map[int]gen.PlanEntry{k: {Raise: true, Kind: kind, Msg: msg}}
 			exp := gen.Run(prog, plan)
